@@ -193,8 +193,8 @@ def real_tokens(repo, sec, log):
         # R18: associated type written out (`Self::Item` of the trait impl the method is re-homed from)
         for item in kv["tysub"].split(";"):
             a, b = item.split("=>")
-            at = rtok.strs(rtok.tokenize(a))
-            bt = rtok.strs(rtok.tokenize(b))
+            at = rtok.strs(rtok.tokenize(a.replace("~", " ")))
+            bt = rtok.strs(rtok.tokenize(b.replace("~", " ")))
             out_ss = []
             i = 0
             while i < len(ss):
